@@ -305,8 +305,13 @@ def r9_settings_text_codec_siblings(ctx):
     if ins:
         c, o_ = ins[0]
         def trimmed_after_split(t):
-            return any(is_call_term(s_, "str::trim", "::trim") and any(isinstance(x, tuple) and x and x[0] == "call" and x[1].split("::")[-1] in ("split_once", "splitn", "split", "split_at") for x in subterms(s_[3][0]))
-                       for s_ in subterms(t) if isinstance(s_, tuple) and s_ and s_[0] == "call" and s_[3])
+            # the last thing done to the piece before it is stored (modulo the conversion to an owned String) is a trim
+            for _ in range(4):
+                if is_call_term(t, "::to_string", "::to_owned", "String::from", ">::from", ">::into", "::into_owned") and t[3]:
+                    t = t[3][0]
+                else:
+                    break
+            return is_call_term(t, "str::trim", "::trim")
         kt, vt = trimmed_after_split(o_.of_operand(c.args[1])), trimmed_after_split(o_.of_operand(c.args[2]))
         ctx.ob("R19.9", "StringMap:reader-trims-key-and-value-separately", kt and vt, c.site, "key and value are trimmed after the split at `=`" if kt and vt else
                "from_bytes stores the %s as split, without trimming it on its own: a scheme written `stop = 8` yields the key `stop ` (or the value ` 8`), PaddingFactory::new reports a missing/invalid stop and the "
